@@ -29,15 +29,17 @@ func c04StreamAndLoop(ctx *core.Ctx, r *RT, enc *ssa.Function) {
 		}
 		bad := ""
 		reads := 0
-		for _, c := range ssax.Calls(fn) {
-			if c.FullName() == "io.ReadFull" || c.FullName() == "io.ReadAtLeast" {
-				reads++
-				continue
-			}
-			if c.Method != nil && c.Method.Name() == "Read" {
-				// an interface Read on a parameter of reader type
-				if _, isIface := c.Common.Value.Type().Underlying().(*types.Interface); isIface {
-					bad = r.IPos(c.Instr)
+		for _, g := range localCone(fn, 2) { // the read may sit in an extracted helper
+			for _, c := range ssax.Calls(g) {
+				if c.FullName() == "io.ReadFull" || c.FullName() == "io.ReadAtLeast" {
+					reads++
+					continue
+				}
+				if c.Method != nil && c.Method.Name() == "Read" {
+					// an interface Read on a parameter of reader type
+					if _, isIface := c.Common.Value.Type().Underlying().(*types.Interface); isIface {
+						bad = r.IPos(c.Instr)
+					}
 				}
 			}
 		}
